@@ -222,11 +222,29 @@ func (h *Hist) genTx() *histTx {
 			recipient = h.user().Addr.String()
 		}
 		a := h.amt(1, 20_000_000_000)
-		switch r.Intn(8) {
+		switch r.Intn(9) {
 		case 0:
 			a = h.amt(1, 30_000) // dust
 		case 1, 2:
 			a = math.NewInt(int64(300 + r.Intn(14_000))) // the swap fee itself is a handful of base units: its skim and its conversion to the fee denom truncate, some to zero
+		case 3:
+			// whale: an exact fraction or multiple of the pool's reserve (reserve ratios of exactly 2, 3/2, 4 ...; more than half the pool out)
+			if pool, ok := app.AmmKeeper.GetPool(ctx, p.Id); ok {
+				d := din
+				fr := [][2]int64{{1, 2}, {1, 1}, {3, 2}, {3, 1}}[r.Intn(4)]
+				if kind == "amm.swapOut" {
+					d = dout
+					fr = [][2]int64{{1, 2}, {1, 4}, {3, 4}, {2, 3}}[r.Intn(4)]
+				}
+				for _, pa := range pool.PoolAssets {
+					if pa.Token.Denom == d {
+						a = pa.Token.Amount.MulRaw(fr[0]).QuoRaw(fr[1])
+					}
+				}
+				if !a.IsPositive() {
+					a = math.OneInt()
+				}
+			}
 		}
 		switch kind {
 		case "amm.swapIn":
